@@ -22,6 +22,7 @@ package verifsim
 import (
 	"fmt"
 	"math/big"
+	"os"
 	"runtime"
 	"runtime/debug"
 	"sort"
@@ -51,6 +52,7 @@ const (
 	c14Get      = 'G'
 	c14Rm       = 'R' // removal reported by the stats hook
 	c14Open     = 'O' // from here on a background adder may insert the tx (see c14Model)
+	c14Final    = 'F' // checker-internal sentinel
 )
 
 type c14Rec struct {
@@ -71,14 +73,14 @@ type c14In struct{ kind byte }
 // by another goroutine / by a later StopSync) are folded into ONE zero-width 'O' operation
 // at the first such call: from then on the tx may become present spontaneously, any number
 // of times (a sound over-approximation of those adds).
-func c14Model() porcupine.Model {
+func c14Model(init uint8, tolerateDoubleAccept bool) porcupine.Model {
 	const absent, present, open = 1, 2, 4
 	step := func(cs uint8, in c14In, out string) uint8 { // concrete state -> set of successors
 		switch in.kind {
 		case c14AddDet:
 			switch out {
 			case "ok":
-				if cs == absent {
+				if cs == absent || tolerateDoubleAccept {
 					return present
 				}
 				return 0
@@ -101,11 +103,16 @@ func c14Model() porcupine.Model {
 			return absent
 		case c14Open:
 			return cs
+		case c14Final: // sentinel closing a segment: "the concrete state is <out> now"
+			if (out == "p") == (cs == present) {
+				return cs
+			}
+			return 0
 		}
 		return 0
 	}
 	return porcupine.Model{
-		Init: func() interface{} { return uint8(absent) },
+		Init: func() interface{} { return init },
 		Step: func(st interface{}, input interface{}, output interface{}) (bool, interface{}) {
 			s := st.(uint8)
 			in := input.(c14In)
@@ -527,19 +534,19 @@ func (c *c14Conc) engine(nBlocks int) {
 		c.phase = fmt.Sprintf("block %d", i)
 		c.waitSubmitters(int64(c.r.Range(30, 90)))
 		c.checkOffer("before proposing")
-		if c.r.Intn(7) == 0 {
+		if c.r.Intn(11) == 0 {
 			// a short synchronisation: blocks arrive without ResetTo, submissions are deferred
 			s0 := c.tick()
 			atomic.StoreInt64(&c.engineOpStart, s0)
 			c.p.Chain.StartSync()
 			c.rep.Count("conc_sync_windows", 1)
 			for k := c.r.Range(1, 2); k > 0 && !c.failed; k-- {
-				c.waitSubmitters(int64(c.r.Range(10, 40)))
+				c.waitSubmitters(int64(c.r.Range(5, 25)))
 				if !c.oneBlock() {
 					break
 				}
 			}
-			c.waitSubmitters(int64(c.r.Range(10, 40)))
+			c.waitSubmitters(int64(c.r.Range(5, 25)))
 			atomic.StoreInt64(&c.engineOpStart, c.tick())
 			c.p.Chain.StopSync()
 			c.syncWins = append(c.syncWins, [2]int64{s0, c.tick()})
@@ -684,7 +691,6 @@ func (c *c14Conc) checkHistories(tEnd int64, seen map[string]bool) {
 		per[h] = append(per[h], c14Rec{hash: h, kind: c14Open, out: "", call: t, ret: t, client: c.nSub + 1, path: "background adds possible from here"})
 	}
 	_ = tEnd
-	model := c14Model()
 	deadline := time.Now().Add(60 * time.Second)
 	var hashes []common.Hash
 	for h := range per {
@@ -694,12 +700,10 @@ func (c *c14Conc) checkHistories(tEnd int64, seen map[string]bool) {
 	c.rep.Count("conc_hashes_with_history", len(hashes))
 	c.rep.Count("conc_history_ops", len(all))
 	for _, h := range hashes {
-		recs := per[h]
 		atomic.AddInt64(c.progress, 1)
 		for _, r := range orig[h] {
 			switch r.kind {
 			case c14AddDet:
-
 				c.rep.Count("conc_add_"+r.out, 1)
 			case c14Rm:
 				c.rep.Count("conc_removals_reported", 1)
@@ -707,48 +711,120 @@ func (c *c14Conc) checkHistories(tEnd int64, seen map[string]bool) {
 				c.rep.Count("conc_get_"+r.out, 1)
 			}
 		}
-		sig, clients := c14OrderSig(orig[h])
-		if len(orig[h]) >= 2 && clients >= 2 {
+		// evidence: call/return orders of the bursts in which >= 2 goroutines overlapped on this hash
+		for _, seg := range c14Segments(orig[h]) {
+			if len(seg) < 2 {
+				continue
+			}
+			sig, clients := c14OrderSig(seg)
+			if clients < 2 {
+				continue
+			}
+			c.rep.Count("conc_overlapping_bursts", 1)
 			c.rep.Distinct("conc", sig)
 			if !seen[sig] {
 				seen[sig] = true
 				c.rep.Count("interleaving_signatures", 1)
-				if len(seen)%40 == 1 && len(orig[h]) <= 14 {
+				if len(seen)%25 == 1 && len(seg) <= 8 {
 					c.rep.Sample(map[string]interface{}{"part": "concurrent", "per_hash_event_order": sig})
 				}
 			}
 		}
-		left := time.Until(deadline)
-		if left <= 0 {
-			c.rep.Inconcl("concurrent run %d: porcupine check ran out of its 60 s budget", c.run)
-			return
-		}
-		res := porcupine.CheckOperationsTimeout(model, c14ToOps(recs), left)
-		c.rep.Count("conc_histories_checked", 1)
-		switch res {
-		case porcupine.Unknown:
-			c.rep.Inconcl("concurrent run %d: porcupine timed out on a history of %d operations", c.run, len(recs))
-			return
-		case porcupine.Illegal:
-			// classify: do adds and removals alone already contradict the model?
-			var ar []c14Rec
-			for _, r := range recs {
-				if r.kind != c14Get {
-					ar = append(ar, r)
+		// the check proper: the history is cut at its quiescent points (no operation open);
+		// every segment is checked from the set of states the previous one can end in
+		st := uint8(1)
+		for _, seg := range c14Segments(per[h]) {
+			left := time.Until(deadline)
+			if left <= 0 {
+				c.rep.Inconcl("concurrent run %d: porcupine check ran out of its 60 s budget", c.run)
+				return
+			}
+			finals, res := c14CheckSegment(seg, st, left, false)
+			c.rep.Count("conc_segments_checked", 1)
+			if res == porcupine.Unknown {
+				c.rep.Inconcl("concurrent run %d: porcupine timed out on a segment of %d operations", c.run, len(seg))
+				if os.Getenv("VERIF_C14_DUMP") != "" {
+					fmt.Printf("C14 TIMEOUT SEGMENT run %d hash %x init %d:\n%s\n", c.run, h[:6], st, strings.Join(c14HistoryText(seg), "\n"))
 				}
+				return
 			}
-			class := "get"
-			if porcupine.CheckOperationsTimeout(model, c14ToOps(ar), 20*time.Second) == porcupine.Illegal {
-				class = "add"
+			if finals == 0 {
+				// classify: is "a tx that is present was accepted once more" the only thing
+				// the model cannot explain? Then go on with that tolerated, so that a second,
+				// different anomaly of the same hash is still seen.
+				relaxed, r2 := c14CheckSegment(seg, st, 20*time.Second, true)
+				class, what := "other", "no order of the operations that is compatible with real time explains the returned verdicts and lookups"
+				if r2 != porcupine.Unknown && relaxed != 0 {
+					class, what = "double-accept", "the same tx was accepted (nil error) by two overlapping adds although no removal separates them; every other verdict and lookup is consistent with that"
+				}
+				c.rep.Violation("linearizability:"+class, fmt.Sprintf("concurrent run %d (seed %d): the history of tx %x is not linearizable w.r.t. {absent,present}: %s", c.run, c.seed, h[:6], what),
+					map[string]interface{}{"run": c.run, "seed": c.seed, "offending_segment": c14HistoryText(seg), "possible_states_before_segment(1=absent,2=present,4=background adds)": st,
+						"history_recorded": c14HistoryText(orig[h]), "sync_windows": c.syncWins})
+				if class == "other" {
+					break
+				}
+				finals = relaxed
 			}
-			what := "a lookup by hash contradicts every order of the adds and removals that is compatible with real time"
-			if class == "add" {
-				what = "the verdicts of the adds alone cannot be explained by any order compatible with real time (e.g. the same tx accepted twice without a removal in between)"
-			}
-			c.rep.Violation("linearizability:"+class, fmt.Sprintf("concurrent run %d (seed %d): the history of tx %x is not linearizable w.r.t. {absent,present}: %s", c.run, c.seed, h[:6], what),
-				map[string]interface{}{"run": c.run, "seed": c.seed, "history_checked": c14HistoryText(recs), "history_recorded": c14HistoryText(orig[h]), "sync_windows": c.syncWins})
+			st = finals
+		}
+		c.rep.Count("conc_histories_checked", 1)
+	}
+}
+
+// c14Segments cuts a history at its quiescent points.
+func c14Segments(recs []c14Rec) [][]c14Rec {
+	s := append([]c14Rec{}, recs...)
+	sort.SliceStable(s, func(i, j int) bool { return s[i].call < s[j].call })
+	var out [][]c14Rec
+	var cur []c14Rec
+	maxRet := int64(-1)
+	for _, r := range s {
+		if len(cur) > 0 && r.call > maxRet {
+			out = append(out, cur)
+			cur = nil
+		}
+		cur = append(cur, r)
+		if r.ret > maxRet {
+			maxRet = r.ret
 		}
 	}
+	if len(cur) > 0 {
+		out = append(out, cur)
+	}
+	return out
+}
+
+// c14CheckSegment returns the set of states (model encoding) a segment can end in when it
+// starts in one of the states of init; 0 = the segment is not linearizable.
+func c14CheckSegment(seg []c14Rec, init uint8, timeout time.Duration, tolerateDoubleAccept bool) (uint8, porcupine.CheckResult) {
+	flag := init & 4
+	last := int64(0)
+	for _, r := range seg {
+		if r.kind == c14Open {
+			flag = 4
+		}
+		if r.ret > last {
+			last = r.ret
+		}
+	}
+	model := c14Model(init, tolerateDoubleAccept)
+	var finals uint8
+	for _, x := range []struct {
+		bit uint8
+		out string
+	}{{1, "a"}, {2, "p"}} {
+		ops := c14ToOps(append(append([]c14Rec{}, seg...), c14Rec{kind: c14Final, out: x.out, call: last + 1, ret: last + 2, client: 1 << 20}))
+		switch porcupine.CheckOperationsTimeout(model, ops, timeout) {
+		case porcupine.Ok:
+			finals |= x.bit
+		case porcupine.Unknown:
+			return 0, porcupine.Unknown
+		}
+	}
+	if finals == 0 {
+		return 0, porcupine.Illegal
+	}
+	return finals | flag, porcupine.Ok
 }
 
 func c14ConcRun(rep *verifutil.Report, run int, progress *int64, seen map[string]bool) {
@@ -831,7 +907,7 @@ func TestVerifC14Conc(t *testing.T) {
 	}
 	rep := verifutil.NewReport()
 	defer rep.Write()
-	nRuns := verifutil.Scale(2, 10)
+	nRuns := verifutil.Scale(2, 30)
 	seen := map[string]bool{}
 	for i := 0; i < nRuns; i++ {
 		run := i
